@@ -1,5 +1,6 @@
 import IndicatifModel.Model.Position
 import IndicatifModel.Generated.Atomics
+import IndicatifModel.Proofs.GenBridge
 /-!
 # C07 — Position and length bookkeeping, including concurrent increments
 -/
@@ -148,6 +149,22 @@ theorem C07_length (s : St) (l d : Nat) (h : s.len = some l) (hl : l < U64) :
     (step s (.incLen d)).len = some (min (l + d) (U64 - 1)) ∧ (step s (.decLen d)).len = some (l - d) ∧
     (step { s with len := none } (.incLen d)).len = none := by
   simp [step, h, satAdd, satSub]
+
+/-- **the source as translated** (`tools/rs2lean.py`, regenerated on every run): `AtomicPosition::{inc, dec, set, reset}`
+and `BarState::{set_length, unset_length, inc_length, dec_length}` never panic and compute exactly the model's
+wrapping / saturating operations, so the theorems above speak about what the code says now -/
+theorem C07_source_ops (a : Generated.AtomicPosition) (s : St) (d now : Nat) (hd : d < 2 ^ 64) (hnow : now < 2 ^ 64) :
+    a.inc d = some ((), { a with pos := (step { s with pos := a.pos } (.inc d)).pos }) ∧
+    a.dec d = some ((), { a with pos := (step { s with pos := a.pos } (.dec d)).pos }) ∧
+    a.set d = some ((), { a with pos := (step { s with pos := a.pos } (.setPos d)).pos }) ∧
+    (∃ a', a.reset now = some ((), a') ∧ a'.pos = (step { s with pos := a.pos } .reset).pos) ∧
+    Generated.LenState.setLength ⟨s.len⟩ now d = some ((), ⟨(step s (.setLen d)).len⟩) ∧
+    Generated.LenState.unsetLength ⟨s.len⟩ now = some ((), ⟨(step s .unsetLen).len⟩) ∧
+    Generated.LenState.incLength ⟨s.len⟩ now d = some ((), ⟨(step s (.incLen d)).len⟩) ∧
+    Generated.LenState.decLength ⟨s.len⟩ now d = some ((), ⟨(step s (.decLen d)).len⟩) := by
+  have hl := GenBridge.length_ops s now d
+  exact ⟨GenBridge.atomicPosition_inc a d, GenBridge.atomicPosition_dec a d hd, GenBridge.atomicPosition_set a d,
+    ⟨_, GenBridge.atomicPosition_reset a now hnow, rfl⟩, hl.1, hl.2.1, hl.2.2.1, hl.2.2.2⟩
 
 /-- non-vacuity: wrap-around at the `u64` boundary -/
 example : (run {} [.setPos (U64 - 1), .inc 2, .dec 3]).pos = U64 - 2 := by decide +kernel
